@@ -94,6 +94,7 @@ class World:
                 else:
                     self.status[e] = "init" if self.has_vars(e) else self.status[e]
             self.lastT = T1
+            self.in_step = set(self.present)
             return "ok", None
         if op.startswith("step"):
             T = T1 if "T1" in op else T2
@@ -101,6 +102,7 @@ class World:
             for e in self.present:
                 self.status[e] = "current"
             self.lastT = T
+            self.in_step = set(self.present)
             self.topo_at_step = topo_for(self.has_ramp, self.has_branch, self.dest_name)
             return "ok", None
         if op == "replace_dest":
@@ -124,7 +126,9 @@ class World:
             if self.status[e] == "uninit":
                 self.status[e] = "init"  # first initialisation of a newly added element: nothing computed so far refers to it
                 return "ok", None
-            # RE-initialisation: every next state computed before now refers to replaced symbols
+            if e not in getattr(self, "in_step", set()):
+                return "ok", None  # its symbols did not exist when the network was last stepped: no next state refers to them
+            # RE-initialisation of an element that took part in the last step: every next state computed then refers to replaced symbols
             for x in self.present:
                 if self.status[x] in ("current", "stale"):
                     self.status[x] = "stale"
